@@ -76,7 +76,9 @@ def r1_metrics(ctx):
             continue
         seen.add(name)
         kind, attr = METRICS[name]
-        txt = ast.unparse(val).replace(' ', '')
+        # the value, with hoisted sub-expressions (receiver = pth[-1]) written out
+        from .common import through_locals
+        txt = ast.unparse(through_locals(val, local_defs(pm), keep={pth, req})).replace(' ', '')
         if kind in ('mean', 'min', 'max'):
             want = f'round({kind}({pth}[-1].{attr}),2)'
         elif kind == 'penalty':
